@@ -64,6 +64,9 @@ CHECKS = {
  "C12": ("exhaustive enumeration of statements x deviation-bounded schemas against an independent expansion model",
          "Full product of 27 field forms x 7 GROUP BY forms x 11 source forms (measurements, lists, 1-2 level subqueries, unknown and empty measurements) x 2 conditions, under every schema within 1 (2) deviations of a base schema of three measurements with overlapping names and conflicting types; RewriteFields' result must equal the result of an expansion model written from the property text (matching columns sorted by name, types by precedence across sources, tags left out of calls and out of fields when grouped by, per-function type filters, untyped references typed), the receiver must be unchanged and 5 (13) repeated runs with fresh maps must agree.",
          "Independence from Go's map iteration order is decided by repetition, not enumeration (map order cannot be controlled without changing the runtime). The model is a re-implementation and was validated against the repository's own RewriteFields test table through the zero-violation run.", "3/C12"),
+ "C17": ("stateless schedule exploration (cooperative scheduler, preemption-bounded DFS) over an automatically instrumented build, with write-footprint independence and happens-before race analysis",
+         "The package is instrumented at every check from /repo's current tree (go/packages + go/types: every read/write of package-level variables, fields, elements, pointer targets, maps, append/copy/delete targets and slices handed to library calls; sync and sync/atomic redirected to shims whose operations are scheduling points) and built through go build -overlay; the repository's own tests must pass against the instrumented code. Scenarios are every ordered pair (thorough: also triples) of 24 thread bodies over 4 shared pre-parsed statements. Each body runs solo (the oracle), then all run under a cooperative scheduler: logged accesses are analysed for data races (overlapping accesses of different threads, one a write, unordered by happens-before through the shims); if no thread writes the pre-existing region and there is no synchronisation, all interleavings are equivalent (reads commute) and one schedule represents them; otherwise schedules are enumerated depth-first with preemption bound 0..2 (3) and every result must equal its solo twin, with no panic or deadlock. Three control scenarios that must race are checked on every run (else exit 2). A separate free-running -race pass over the same bodies is merged into the evidence.",
+         "Sequentially consistent interleavings at source-level access points; accesses inside the standard library are seen only by the race-detector pass. The shared set is the one the property names (GroupByInterval excluded).", "3/C17"),
 }
 ALL = ["C%02d" % i for i in range(1, 21)]
 NOT_YET = "check not built yet in this revision of /verif (work in progress; see DESIGN.md section 3 for the planned bounded-exhaustive check)"
@@ -80,6 +83,10 @@ m = {
  },
  "engines": [
    {"name": "xplore", "path": "harness/xplore", "serves_properties": [], "kind_free_text": "stateless deviation-bounded exhaustive explorer of choice trees (DFS over choice vectors, replayable)"},
+   {"name": "gram", "path": "harness/gram", "serves_properties": ["C01","C02","C04","C07","C13","C14","C15","C16"], "kind_free_text": "grammar model: generators that build statement text and the AST it denotes from choices; renderer with lexical gap classification"},
+   {"name": "lexx", "path": "harness/lexx", "serves_properties": ["C04","C05"], "kind_free_text": "lexeme-sequence alphabet and independent rune folding / position model"},
+   {"name": "vinstr", "path": "instr", "serves_properties": ["C17"], "kind_free_text": "source instrumenter (go/packages, go/types, astutil) producing a go build overlay"},
+   {"name": "vsched", "path": "harness/cmd/vsched", "serves_properties": ["C17"], "kind_free_text": "cooperative scheduler, preemption-bounded DFS over schedules, vector-clock race analysis"},
    {"name": "astx", "path": "harness/astx", "serves_properties": sorted(CHECKS), "kind_free_text": "reflection AST canonicaliser: dump, first-difference, hash, alias sets"},
  ],
  "checks": [],
@@ -95,7 +102,7 @@ for cid in ALL:
           "thorough_cmd": "./check %s thorough" % cid,
           "evidence_file": "/verif/evidence/%s.json" % cid,
           "replay_cmd_template": "./check replay {path}",
-          "engine": "vcheck",
+          "engine": "vcheck" if cid != "C17" else "vinstr+vsched+vrace",
           "level_claimed": {"category": "model_checking", "text": text, "design_ref": "DESIGN.md " + ref},
           "level_note": note,
           "technique": tech,
